@@ -827,8 +827,8 @@ impl Family for C11 {
 
     fn runs(t: Tier) -> u64 {
         match t {
-            Tier::Quick => 400_000,
-            Tier::Thorough => 40_000_000,
+            Tier::Quick => 4_000_000,
+            Tier::Thorough => 300_000_000,
         }
     }
 
